@@ -229,6 +229,8 @@ func (d TokenDesc) Mint() string {
 			key = k.HMACOther
 		case "pubpem-as-hmac":
 			key = []byte(k.RSAPubPEM)
+		case "empty":
+			key = []byte{} // what an unset hmac_secret_key loads as
 		}
 		if d.Secret != "" {
 			key = []byte(d.Secret)
